@@ -33,6 +33,18 @@ def readLoop (max : Nat) : Nat → Stream → List String → List String
       let r := if c == 28 then "refused" else errStr e
       (r :: acc).reverse
 
+/-- `msg.write`: the writes `Message.Write` issues -/
+def writeAnswer : List String → String
+  | [mg, id, sz, ver, ty, fl, sv, ob, ac, p] =>
+    match parseHex p with
+    | none => "bad-op"
+    | some pl =>
+      let h : Header := ⟨mg.toNat!, id.toNat!, sz.toNat!, ver.toNat!, ty.toNat!, fl.toNat!, sv.toNat!, ob.toNat!, ac.toNat!⟩
+      match writeMsg ⟨h, pl⟩ with
+      | .error _ => "err"
+      | .ok ws => "ok " ++ " ".intercalate (ws.map toHex)
+  | _ => "bad-op"
+
 def run (max : Nat) (args : List String) : String :=
   match args with
   | "msg.read" :: k :: chunks =>
@@ -52,6 +64,10 @@ def run (max : Nat) (args : List String) : String :=
       match writeMsg ⟨h, pl⟩ with
       | .error _ => "err"
       | .ok ws => "ok " ++ " ".intercalate (ws.map toHex)
+  | "msg.wfail" :: _ :: _ :: _ :: _ :: _ :: _ :: _ :: _ :: _ :: _ :: _ :: _ :: rest =>
+    -- the message before went to a writer that failed (its Write reports an error or too few bytes): an error for
+    -- that one; this one is its own header and payload in one write, whatever happened before (`writeMsg` has no state)
+    "err | " ++ writeAnswer rest
   | ["msg.limit", sz] =>
     -- a valid header announcing `sz` bytes, five bytes behind it: is the header refused (28 bytes
     -- consumed, nothing of what follows) or does the reader go on for the payload?  A message with a
